@@ -736,9 +736,10 @@ func (r *Reader) MarkdownWithOptions(opts ExtractOptions) (string, error) {
 				}
 
 				if para.IsBullet || para.IsNumbered {
-					// Indentation for nested bullets
+					// Indentation for nested bullets: four blanks per level nest
+					// below both "- " and "1. " markers
 					for j := 0; j < para.Level; j++ {
-						result.WriteString("  ")
+						result.WriteString("    ")
 					}
 					if para.IsNumbered {
 						result.WriteString("1. ")
